@@ -58,6 +58,11 @@ def tasksOk (tasks : List Nat) (events : List (Nat × Op)) : Bool :=
 def registerOnceOk (newAccountOk dne changes : Nat) : Bool :=
   decide (newAccountOk ≤ 1 + dne + changes)
 
+/-- The same, counted from the start state: `base` = 1 when the pair was not registered (or its binding
+was stale) at the start of the observed window, 0 when it was registered with the configured binding. -/
+def registerOnceFromOk (base newAccountOk dne changes : Nat) : Bool :=
+  decide (newAccountOk ≤ base + dne + changes)
+
 /-- No two POSTs on one endpoint carry the same nonce. -/
 def noncesDistinct {α : Type} [BEq α] : List α → Bool
   | [] => true
